@@ -14,6 +14,7 @@ Corpus: the statement generators of C01, C03, C06 and C07, programs using hash-m
 update / lookup / Else, ktime, prandom, sub-programs and locals, and the library's own programs (the EtherXDP
 dispatcher and fast sync groups with each bundled device)."""
 import hashlib
+import itertools
 import json
 import mmap
 import os
@@ -216,6 +217,15 @@ def corpus(ctx):
         sh = c03.shapes(a, b, c)
         s = c03.blocks(fixed.choice(sh), fixed.choice(sh))[fixed.randrange(5)]
         out.append(("C03", repr(s)[:200], lambda k, s=s: condgen.program(s, k)["built"]))
+
+    # constant shifts at the edge of the operation's width, wide left operand into narrow destinations and back
+    # (the generator must refuse what the kernel refuses; added after a seeded change slipped through the quick tier)
+    for left, op, c, dst in itertools.product([("reg", "r"), ("var", "Q"), ("var", "q"), ("const", 2 ** 40 + 5), ("var", "I"), ("reg", "w")],
+                                              ("lsh", "rsh"), (31, 32, 33, 40, 63, 64), [("reg", "w"), ("var", "I"), ("var", "B"), ("var", "Q"), ("reg", "r")]):
+        for tree in ((("bin", op, left, ("const", c))), ("bin", "add", ("bin", op, left, ("const", c)), ("var", "H"))):
+            if tree[2][0] == "const" and tree[0] == "bin" and tree[1] == op:
+                continue                                   # constant << constant is evaluated by Python
+            out.append(("C01", f"{tree} -> {dst}", lambda k, tree=tree, dst=dst: dslgen.statement(tree, dst, k)["built"]))
 
     class Q:
         quick = True
